@@ -444,6 +444,24 @@ def _probe_thunks():
         sink = gs.GenericStatementSink()
         return hashlib.sha256(repr((list(sink.namespaces), len(list(sink)))).encode()).hexdigest()
 
+    def evict(api, cls):
+        def thunk():
+            # more names and prefixes than the tables hold, several new entries per statement:
+            # which entry is evicted when must not depend on the process (hash seed)
+            seq = []
+            for i in range(14):
+                st = (I(f"http://e{i % 6}/s{i}"), I(f"http://e{(i + 1) % 6}/p{i % 4}"),
+                      I(f"http://e{(i + 2) % 6}/o{i}"))
+                seq.append(st if cls == "triple" else (*st, I(f"http://e{(i + 3) % 6}/g{i % 2}")))
+            opts = DR.make_options(cls, (8, 4, 1), 250, True, generalized=False, rdf_star=False)
+            data = (DR.g_write if api == "generic" else DR.r_write)(seq, cls, opts,
+                                                                   "stream_frames_gen")
+            return hashlib.sha256(data).hexdigest()
+        return thunk
+
+    for api in ("generic", "rdflib"):
+        for cls in ("triple", "quad"):
+            yield f"{api}-{cls}-evicting", evict(api, cls)
     yield "generic-empty-sink", empty_sink
     for api in ("generic", "rdflib"):
         yield f"{api}-ns-parse", ns_parse(api)
